@@ -115,9 +115,17 @@ pub fn to_expr(n: &AstNode) -> IdedExpr {
 
 /// Parses with the real parser and mirrors the result.
 pub fn import(src: &str) -> Result<AstNode, String> {
-    let parser = cel_parser::Parser::default();
-    match parser.parse(src) {
-        Ok(e) => Ok(from_expr(&e)),
-        Err(e) => Err(format!("{}", e)),
+    // the parser of the tree under test may reject or even panic on a source text: both are
+    // "not compiled" to the caller, never a harness failure (C05 is not about compiling)
+    let r = std::panic::catch_unwind(|| {
+        let parser = cel_parser::Parser::default();
+        match parser.parse(src) {
+            Ok(e) => Ok(from_expr(&e)),
+            Err(e) => Err(format!("{}", e)),
+        }
+    });
+    match r {
+        Ok(x) => x,
+        Err(_) => Err("the parser panicked".to_string()),
     }
 }
